@@ -133,6 +133,33 @@ def collect(nest_fn, regs, thr, consumable):
     return got
 
 
+def collect_both(nest_fn, regs, order):
+    """Every trace registered as a file trace AND as a consumable trace."""
+    prefix = os.path.join(core.scratch(), "c16b")
+    Metrics.beginCollect(prefix)
+    consumed = {}
+    try:
+        Metrics.setNumCachedUses(BIG)
+        for r, t in regs:
+            for cons in ((False, True) if order == "file-first" else (True, False)):
+                Metrics.trace(r, type_=t, consumable=cons)
+        nest_fn()
+        for r, t in regs:
+            consumed[(r, t)] = [list(x) for x in Metrics.consumeTrace(r, t)]
+    finally:
+        try:
+            if Metrics.isCollecting():
+                for r, t in regs:
+                    try:
+                        Metrics.consumeTrace(r, t)
+                    except Exception:
+                        pass
+            Metrics.endCollect()
+        finally:
+            Metrics.setNumCachedUses(BIG)
+    return read_files(prefix), consumed
+
+
 def lex_ok(stamps, strict):
     for i in range(len(stamps) - 1):
         if strict:
@@ -224,6 +251,14 @@ def run_all(fam, nest_fn, regs, feats, out):
         o = {k: v for k, v in o.items() if v}
         b = {k: v for k, v in base.items() if v}
         compare_runs(fam, b, o, "consumable-rows-differ-from-file-rows", feats, out)
+        # both modes for the same (rank, type), in either order of registration: the file and the consumed rows
+        # are both complete (test_consume_trace_and_write registers consumable first)
+        for order in ("file-first", "consumable-first"):
+            files, consumed = collect_both(nest_fn, regs, order)
+            f2 = set(feats) | {"both-modes:" + order}
+            compare_runs(fam, b, {k: v for k, v in files.items() if v}, "file-rows-differ-when-also-consumable", f2, out)
+            compare_runs(fam, b, {k: v for k, v in consumed.items() if v},
+                         "consumed-rows-differ-when-also-written", f2, out)
     except Exception as ex:
         out.append((fam, "exception:" + type(ex).__name__, set(feats) | {"site:" + core.exc_site(ex), "rerun"},
                     None, core.tb_tail(ex)))
